@@ -22,6 +22,8 @@ type burnTracer struct {
 	started   bool
 	ended     bool
 	frames    [][]*big.Int
+	cframes   [][]common.Address        // per open frame: creators of the CREATE/CREATE2 steps that got past the balance check
+	creators  map[common.Address]uint64 // surviving creation steps per creator (set at CaptureEnd)
 	burn      *big.Int
 	vmGas     uint64
 	endErr    error
@@ -101,6 +103,7 @@ func (t *burnTracer) CaptureStart(env *kvm.KVM, from common.Address, to common.A
 	t.env = env
 	t.started = true
 	t.frames = [][]*big.Int{nil}
+	t.cframes = [][]common.Address{nil}
 }
 
 func (t *burnTracer) CaptureState(pc uint64, op kvm.OpCode, gas, cost uint64, scope *kvm.ScopeContext, rData []byte, depth int, err error) {
@@ -119,10 +122,21 @@ func (t *burnTracer) CaptureState(pc uint64, op kvm.OpCode, gas, cost uint64, sc
 	switch op {
 	case kvm.CALL:
 		t.ops |= opCall
-	case kvm.CREATE:
-		t.ops |= opCreate
-	case kvm.CREATE2:
-		t.ops |= opCreate2
+	case kvm.CREATE, kvm.CREATE2:
+		if op == kvm.CREATE {
+			t.ops |= opCreate
+		} else {
+			t.ops |= opCreate2
+		}
+		// a creation step that is affordable and whose endowment the creator can pay bumps the creator's nonce,
+		// whatever happens to the init code afterwards (collision included)
+		if err == nil && t.env != nil && len(t.cframes) > 0 && scope != nil && scope.Stack != nil && len(scope.Stack.Data()) >= 3 {
+			creator := scope.Contract.Address()
+			if t.env.StateDB.GetBalance(creator).Cmp(scope.Stack.Back(0).ToBig()) >= 0 {
+				top := len(t.cframes) - 1
+				t.cframes[top] = append(t.cframes[top], creator)
+			}
+		}
 	case kvm.REVERT:
 		t.ops |= opRevert
 	case kvm.STATICCALL:
@@ -156,6 +170,7 @@ func (t *burnTracer) CaptureEnter(typ kvm.OpCode, from common.Address, to common
 		}
 	}
 	t.frames = append(t.frames, nil)
+	t.cframes = append(t.cframes, nil)
 }
 
 func (t *burnTracer) CaptureExit(output []byte, gasUsed uint64, err error) {
@@ -174,6 +189,13 @@ func (t *burnTracer) CaptureExit(output []byte, gasUsed uint64, err error) {
 	}
 	f := t.frames[n-1]
 	t.frames = t.frames[:n-1]
+	if m := len(t.cframes); m >= 2 {
+		cf := t.cframes[m-1]
+		t.cframes = t.cframes[:m-1]
+		if err == nil {
+			t.cframes[m-2] = append(t.cframes[m-2], cf...)
+		}
+	}
 	if err == nil {
 		t.frames[n-2] = append(t.frames[n-2], f...)
 	} else {
@@ -189,6 +211,12 @@ func (t *burnTracer) CaptureEnd(output []byte, gasUsed uint64, d time.Duration, 
 	t.vmGas = gasUsed
 	t.endErr = err
 	t.burn = new(big.Int)
+	t.creators = map[common.Address]uint64{}
+	if err == nil && len(t.cframes) > 0 {
+		for _, a := range t.cframes[0] {
+			t.creators[a]++
+		}
+	}
 	if err == nil && len(t.frames) > 0 {
 		for _, b := range t.frames[0] {
 			t.burn.Add(t.burn, b)
